@@ -1,4 +1,5 @@
 import PeliteModel.Lemmas.Pattern
+import PeliteModel.Lemmas.RustLiteral
 /-!
 C17 — the compile-time macro `pelite::pattern!` and the run-time parser produce the same pattern.
 
@@ -8,9 +9,13 @@ macro crate `include`s the very file `pattern.rs` as a module), then a compile e
 The code-generation step (`format!("{:?}")` of the atoms, re-parsed by rustc) is trusted and
 validated by the batch correspondence check (`vlib/macrocase.py`).
 
-`escapeWith choices cs` is the reference escaper: a Rust string literal for the chars `cs`, where
-`choices` selects per char between the verbatim form and the backslash form for `'`, TAB, CR, LF
-(`"` and `\` are always escaped).  The supported escapes are exactly `\\ \' \" \t \r \n`.
+`escapeWith choices cs` (Spec/RustLiteral.lean) is the reference escaper: a Rust string literal for
+the chars `cs`, where `choices` selects per char between the verbatim form and the backslash form for
+`'`, TAB, CR, LF (`"` and `\` are always escaped).  The supported escapes are exactly `\\ \' \" \t \r \n`.
+
+Second part of the file: the same statements against `Spec.rustLitValue` (Spec/RustLiteral.lean), the
+meaning of a string literal token written from the Rust Reference independently of the model: for
+EVERY well-formed literal, not only the image of `escapeWith`.
 -/
 namespace Pelite.Pattern
 
@@ -95,5 +100,147 @@ example : macroAtoms "r\"12 34\"".toList = .error .notStringLiteral := by decide
 example : macroAtoms "b\"12\"".toList = .error .notStringLiteral := by decide +kernel
 /-- a literal suffix is ignored (leniency of the macro, harmless for C17) -/
 example : macroAtoms "\"12 34\"suffix".toList = .ok [.save 0, .byte 0x12, .byte 0x34] := by decide +kernel
+
+
+/-! ## Against the independent meaning of string literals (`Spec.rustLitValue`)
+
+`Spec.rustLitValue lit = some s`: the text `lit` is a well-formed Rust string literal token (any
+suffix) and `s` is the `str` it denotes according to the Rust Reference — all escapes included
+(`\0`, `\xNN`, `\u{…}`, line continuation), a bare CR rejected. -/
+
+/-- The unconditional soundness statement "`unescape lit = .ok cs → rustLitValue lit = some cs`" is
+FALSE: `parse_str_literal` passes a bare CR through, rustc's lexer rejects it ("bare CR not allowed
+in string").  Harmless for C17 — such a token never reaches a compiled program — but it is why the
+next theorem has a hypothesis. -/
+theorem C17_unescape_sound_false :
+    ¬ ∀ lit cs, unescape lit = .ok cs → Spec.rustLitValue lit = some cs := by
+  intro h
+  have := h "\"12\r34\"".toList "12\r34".toList (by decide +kernel)
+  revert this
+  decide +kernel
+
+/-- **Whenever the macro accepts a literal, the string it hands to the parser IS the literal's
+value** — for every token text without a CR char (the only divergence, see above). -/
+theorem C17_unescape_sound_partial (lit cs : List Char) (hcr : '\r' ∉ lit)
+    (h : unescape lit = .ok cs) : Spec.rustLitValue lit = some cs :=
+  unescape_sound lit cs hcr h
+
+example : '\r' ∉ "\"12 \\r\\n\t'\\' \\\"a\\\" \\\\\"".toList ∧
+    unescape "\"12 \\r\\n\t'\\' \\\"a\\\" \\\\\"".toList = .ok "12 \r\n\t'' \"a\" \\".toList := by decide +kernel
+
+/-- **The macro rejects a well-formed literal only for an escape it does not implement**: `\0`,
+`\xNN`, `\u{…}` or a line continuation; every other well-formed literal is unescaped to its value. -/
+theorem C17_unescape_rejects_only_unsupported (lit cs : List Char)
+    (h : Spec.rustLitValue lit = some cs) : unescape lit = .ok cs ∨ Spec.UsesUnsupportedEscape lit :=
+  unescape_complete lit cs h
+
+/-- … and those it does reject, with `parse_str_literal`'s panic for the first such escape. -/
+theorem C17_unsupported_rejected (lit cs : List Char) (h : Spec.rustLitValue lit = some cs)
+    (hu : Spec.UsesUnsupportedEscape lit) :
+    unescape lit = .error .unicodeEscape ∨ unescape lit = .error (.unknownEscape '0') ∨
+    unescape lit = .error (.unknownEscape 'x') ∨ unescape lit = .error (.unknownEscape '\n') :=
+  unescape_unsupported lit cs h hu
+
+/-- On a well-formed literal the macro's string is never a *different* string than the literal's
+value (no hypothesis on CR needed: the literal is well-formed). -/
+theorem C17_unescape_agrees (lit v cs : List Char) (hv : Spec.rustLitValue lit = some v)
+    (h : unescape lit = .ok cs) : cs = v := by
+  rcases unescape_complete lit v hv with h' | hu
+  · rw [h'] at h; cases h; rfl
+  · rcases unescape_unsupported lit v hv hu with h' | h' | h' | h' <;> (rw [h'] at h; cases h)
+
+/-- **C17, first half, for every literal.** If `lit` is a well-formed string literal denoting `s`
+and uses no unsupported escape, the macro expands to exactly the atoms the run-time parser returns
+for `s`. -/
+theorem C17_macro_eq_parse_lit (lit s : List Char) (atoms : List Atom)
+    (hv : Spec.rustLitValue lit = some s) (hs : ¬ Spec.UsesUnsupportedEscape lit)
+    (h : parse (utf8 s) = .ok atoms) : macroAtoms lit = .ok atoms := by
+  have hu : unescape lit = .ok s := (unescape_complete lit s hv).resolve_right hs
+  unfold macroAtoms
+  rw [hu]
+  dsimp only
+  rw [h]
+
+/-- **C17, second half, for every literal.** If the run-time parser rejects the literal's value, the
+invocation does not compile: the macro panics with the parser's error (kind and position). -/
+theorem C17_rejected_does_not_compile_lit (lit s : List Char) (k : PatErr) (pos : Nat)
+    (hv : Spec.rustLitValue lit = some s) (hs : ¬ Spec.UsesUnsupportedEscape lit)
+    (h : parse (utf8 s) = .err k pos) : macroAtoms lit = .error (.invalidPattern k pos) := by
+  have hu : unescape lit = .ok s := (unescape_complete lit s hv).resolve_right hs
+  unfold macroAtoms
+  rw [hu]
+  dsimp only
+  rw [h]
+
+/-- the hypotheses on a literal with mixed verbatim / escaped forms, a suffix, and non-ASCII text -/
+example : Spec.rustLitValue "\"e8 ${'} \\\"é\\\" \\t\n?\"suffix".toList = some "e8 ${'} \"é\" \t\n?".toList ∧
+    ¬ Spec.UsesUnsupportedEscape "\"e8 ${'} \\\"é\\\" \\t\n?\"suffix".toList := by decide +kernel
+
+/-- A well-formed literal that does use an unsupported escape never compiles (so the macro accepts
+nothing the run-time parser would not be asked about). -/
+theorem C17_unsupported_does_not_compile (lit s : List Char) (hv : Spec.rustLitValue lit = some s)
+    (hu : Spec.UsesUnsupportedEscape lit) : ∃ e, macroAtoms lit = .error e := by
+  unfold macroAtoms
+  rcases unescape_unsupported lit s hv hu with h' | h' | h' | h' <;> (rw [h']; exact ⟨_, rfl⟩)
+
+example : Spec.rustLitValue "\"12 \\x41\"".toList = some "12 A".toList ∧
+    Spec.UsesUnsupportedEscape "\"12 \\x41\"".toList := by decide +kernel
+
+/-- The macro's outcome on ANY well-formed string literal is a function of the run-time parser's
+outcome on the literal's value, or the literal uses an unsupported escape and does not compile. -/
+theorem C17_macro_total_lit (lit s : List Char) (hv : Spec.rustLitValue lit = some s) :
+    (∃ atoms, parse (utf8 s) = .ok atoms ∧ macroAtoms lit = .ok atoms) ∨
+    (∃ k pos, parse (utf8 s) = .err k pos ∧ macroAtoms lit = .error (.invalidPattern k pos)) ∨
+    (Spec.UsesUnsupportedEscape lit ∧ ∃ e, macroAtoms lit = .error e) := by
+  by_cases hs : Spec.UsesUnsupportedEscape lit
+  · exact Or.inr (Or.inr ⟨hs, C17_unsupported_does_not_compile lit s hv hs⟩)
+  · have := parse_good (utf8 s)
+    cases h : parse (utf8 s) with
+    | ok atoms => exact Or.inl ⟨atoms, rfl, C17_macro_eq_parse_lit lit s atoms hv hs h⟩
+    | err k pos => exact Or.inr (Or.inl ⟨k, pos, rfl, C17_rejected_does_not_compile_lit lit s k pos hv hs h⟩)
+    | panic site => rw [h] at this; exact this.elim
+    | diverge => rw [h] at this; exact this.elim
+
+/-- Soundness of the macro in terms of the literal's value: on a well-formed literal, atoms the macro
+expands to are the run-time parser's atoms for the VALUE of the literal. -/
+theorem C17_macro_sound_lit (lit s : List Char) (atoms : List Atom)
+    (hv : Spec.rustLitValue lit = some s) (h : macroAtoms lit = .ok atoms) :
+    parse (utf8 s) = .ok atoms := by
+  obtain ⟨cs, hu, hp⟩ := C17_macro_sound lit atoms h
+  rw [← C17_unescape_agrees lit s cs hv hu]
+  exact hp
+
+/-! ### The reference writer produces literals with the intended value -/
+
+/-- the all-backslash form is a well-formed literal denoting `s`, with any suffix -/
+theorem C17_escape_value (s junk : List Char) :
+    Spec.rustLitLex (escape s ++ junk) = some (s, junk) :=
+  rustLitLex_escapeWith [] s junk (cr_not_mem_escape s)
+
+/-- every mix of styles that does not write a CR verbatim is a well-formed literal denoting `s` -/
+theorem C17_escapeWith_value_partial (sty : List Bool) (s junk : List Char)
+    (h : '\r' ∉ escapeWith sty s) : Spec.rustLitLex (escapeWith sty s ++ junk) = some (s, junk) :=
+  rustLitLex_escapeWith sty s junk h
+
+example : '\r' ∉ escapeWith [false, true, false] "'\r\n\t".toList ∧
+    escapeWith [false, true, false] "'\r\n\t".toList = "\"'\\r\n\\t\"".toList := by decide +kernel
+
+/-- … and the hypothesis is needed: the verbatim style on a CR is the bare CR rustc rejects (the model's
+`unescape` accepts it, `C17_unescape_escape`). -/
+theorem C17_escapeWith_value_false :
+    ¬ ∀ sty s, Spec.rustLitValue (escapeWith sty s) = some s := by
+  intro h
+  have := h [false] ['\r']
+  revert this
+  decide +kernel
+
+/-- what the new escapes mean (none of them compiles through the macro, see the examples above) -/
+example : Spec.rustLitValue "\"\\x41\\u{1F6_00_}\\0 \\\n   \t x\"".toList =
+    some ['A', Char.ofNat 0x1F600, Char.ofNat 0, ' ', 'x'] := by decide +kernel
+example : Spec.rustLitValue "\"\\x80\"".toList = none ∧ Spec.rustLitValue "\"\\u{D800}\"".toList = none ∧
+    Spec.rustLitValue "\"\\u{_41}\"".toList = none ∧ Spec.rustLitValue "\"\\u{0000041}\"".toList = none ∧
+    Spec.rustLitValue "\"\\u{}\"".toList = none ∧ Spec.rustLitValue "\"\\q\"".toList = none ∧
+    Spec.rustLitValue "\"12".toList = none ∧ Spec.rustLitValue "r\"12\"".toList = none ∧
+    Spec.rustLitValue "b\"12\"".toList = none := by decide +kernel
 
 end Pelite.Pattern
